@@ -142,9 +142,22 @@ public:
                 const XalanDOMChar  chars[],
                 size_type           start,
                 size_type           length,
-                bool&               /* outsideCDATA */)
+                bool&               outsideCDATA)
     {
         assert(chars != 0 && length != 0 && start < length);
+
+        if (outsideCDATA == true)
+        {
+            // The previous character was written as a character
+            // reference, outside of the CDATA section, so open a
+            // new section.
+            static const value_type     s_cdataOpenString[] =
+                { '<', '!', '[', 'C', 'D', 'A', 'T', 'A', '[' };
+
+            write(s_cdataOpenString, sizeof(s_cdataOpenString));
+
+            outsideCDATA = false;
+        }
 
         return write(chars, start, length);
     }
